@@ -57,7 +57,8 @@ ASSUMPTIONS = [
     'released-on-exit is stated for a pool driven by one thread at a time (other pools/threads arbitrary)',
 ]
 RULE = ('live: small-exhaustive event sequences (length<=3 quick / <=4 thorough) over a 15-letter alphabet on 2 addresses '
-        'and 2 clients, then random sequences of length<=25, clock start 50 or 1000; own: random sequences (<=14 ops) of '
+        'and 2 clients, then random sequences of length<=25, clock start 50 or 1000, plus (server life-cycle) every sequence of '
+        '<=3 (thorough 4) restart/kill/shutdown/deliver/call/alive events after a delivered shutdown; own: random sequences (<=14 ops) of '
         '_acquire_all/release_all/next_idle_worker/release/run/call_and_wait/as_completed/hang/unhang/die/revive (tasks that '
         'raise and tasks that pronounce a worker dead while they run) from 2-3 pools over '
         '2-3 shared workers, plus all ordered pairs of a small op alphabet; non-trivial = live: some is_alive observed after '
@@ -336,6 +337,16 @@ def _gen_cases(ctx):
     yield rand_sched(rng)
   for _ in range(300 if quick else 6000):
     yield rand_schedrun(rng)
+  # --- live, server life-cycle (round 6; no PRNG use): after a delivered shutdown every sequence of <= 3 (4 thorough) of
+  # restart / kill / shutdown / deliver / call / alive, closed by a call, deliveries, a registration and is_alive: the
+  # restarted server (CourierServer.start() after a stop: transport up, no run loop) must answer and must not stop again
+  lal = [dict(op='shutdown', i=0), dict(op='deliver', k=0, fail=False), dict(op='revive', a=0), dict(op='kill', a=0),
+         dict(op='call', i=0), dict(op='alive', i=0)]
+  for n in range(1, 4 if quick else 5):
+    for seq in itertools.product(range(len(lal)), repeat=n):
+      yield live_case(1000, [dict(op='shutdown', i=0), dict(op='deliver', k=0, fail=False)] + [lal[i] for i in seq] +
+                      [dict(op='call', i=0), dict(op='deliver', k=0, fail=False), dict(op='deliver', k=0, fail=False),
+                       dict(op='reg', a=0, t=990), dict(op='alive', i=0)])
 
 
 # ----------------------------------------------------------------------------- real code
@@ -583,7 +594,8 @@ LIVE_BRANCHES = [
     'reg/absent', 'reg/dead', 'reg/live', 'refresh/absent', 'refresh/dead', 'refresh/live', 'unreg', 'tick',
     'alive/true', 'alive/false', 'alive/false+hb', 'call', 'send/alive', 'send/dead', 'deliver/empty',
     'deliver/cancelled', 'deliver/down', 'deliver/fail', 'deliver/hb-nosender', 'deliver/hb-register',
-    'deliver/hb-unregister', 'deliver/plain', 'deliver/shutdown', 'kill', 'revive', 'shutdown']
+    'deliver/hb-unregister', 'deliver/plain', 'deliver/shutdown', 'deliver/shutdown-noloop', 'kill', 'revive',
+    'revive/restart', 'shutdown']
 
 
 def _cover(kind, key, n=1):
